@@ -292,6 +292,9 @@ func (w *World) origin(v ssa.Value) ssa.Value {
 			// method value) that is stored exactly once in the whole module
 			sv := w.messageFieldValue(x)
 			if sv == nil {
+				sv = w.valueReceiverField(x)
+			}
+			if sv == nil {
 				return v
 			}
 			v = sv
@@ -377,4 +380,94 @@ func (w *World) isParamOf(v ssa.Value, fn *ssa.Function, idx int) bool {
 	o := w.origin(v)
 	p, ok := o.(*ssa.Parameter)
 	return ok && p.Parent() == fn && idx < len(fn.Params) && fn.Params[idx] == p
+}
+
+
+// valueReceiverField: fa addresses field k of the (spilled) value receiver of a method that is
+// only ever used as a method value `op.m` of one local struct variable op (a request carried by
+// value): the single value stored into op.k before the method value was taken. nil otherwise.
+func (w *World) valueReceiverField(fa *ssa.FieldAddr) ssa.Value {
+	al, ok := fa.X.(*ssa.Alloc)
+	if !ok || !localStruct(al) {
+		return nil
+	}
+	m := al.Parent()
+	if m.Signature.Recv() == nil || len(m.Params) == 0 {
+		return nil
+	}
+	// the alloc is the spill of the receiver: one whole store of parameter 0, no field stores
+	whole := 0
+	for _, ref := range *al.Referrers() {
+		switch x := ref.(type) {
+		case *ssa.Store:
+			if x.Val != ssa.Value(m.Params[0]) {
+				return nil
+			}
+			whole++
+		case *ssa.FieldAddr:
+			if x.Referrers() != nil {
+				for _, r2 := range *x.Referrers() {
+					if _, isSt := r2.(*ssa.Store); isSt {
+						return nil
+					}
+				}
+			}
+		}
+	}
+	if whole != 1 {
+		return nil
+	}
+	// every use of the method is through its bound wrapper, made from exactly one closure site
+	var wrapper *ssa.Function
+	for _, site := range w.callers[m] {
+		c := site.Parent()
+		if !strings.HasPrefix(c.Synthetic, "bound method wrapper") {
+			return nil
+		}
+		wrapper = c
+	}
+	if wrapper == nil {
+		return nil
+	}
+	var mcs []*ssa.MakeClosure
+	for _, fn := range w.ModFns {
+		for _, b := range fn.Blocks {
+			for _, in := range b.Instrs {
+				if mc, ok := in.(*ssa.MakeClosure); ok && mc.Fn == ssa.Value(wrapper) {
+					mcs = append(mcs, mc)
+				}
+			}
+		}
+	}
+	if len(mcs) != 1 || len(mcs[0].Bindings) != 1 {
+		return nil
+	}
+	ld, ok := mcs[0].Bindings[0].(*ssa.UnOp)
+	if !ok || ld.Op != token.MUL {
+		return nil
+	}
+	src, ok := ld.X.(*ssa.Alloc)
+	if !ok || !localStruct(src) {
+		return nil
+	}
+	var stores []*ssa.Store
+	for _, ref := range *src.Referrers() {
+		switch x := ref.(type) {
+		case *ssa.Store:
+			return nil // whole-value assignment: not followed
+		case *ssa.FieldAddr:
+			if x.Field != fa.Field || x.Referrers() == nil {
+				continue
+			}
+			for _, r2 := range *x.Referrers() {
+				if st, isSt := r2.(*ssa.Store); isSt {
+					stores = append(stores, st)
+				}
+			}
+		}
+	}
+	if len(stores) != 1 {
+		return nil
+	}
+	return stores[0].Val
 }
